@@ -85,10 +85,52 @@ def g_int_type(cn):
 
 
 # ------------------------------------------------------------------ end-to-end driver
+class NoForm(Exception):
+    """the logical request has no wire form in this protocol"""
+
+
+class _No(object):
+    def __repr__(self):
+        return 'NO'
+NO = _No()
+
+
+class Wv(object):
+    """a leaf value with its wire forms: `text` for XML / SOAP / HttpRpc (None: no text form), `doc` for
+    JSON / YAML / MessagePack (NO: no document form), `nil` for an explicit null"""
+
+    def __init__(self, text=None, doc=NO, nil=False):
+        self.text, self.doc, self.nil = text, doc, nil
+
+    def __repr__(self):
+        return 'Wv(%r, %r%s)' % (self.text, self.doc, ', nil=True' if self.nil else '')
+NULL = Wv(None, None, nil=True)
+
+_NS = {}
+def ns():
+    """the names that type expressions and payloads of the tables (and of replay files) may use"""
+    if not _NS:
+        import datetime, decimal, uuid
+        import spyne.model.primitive as P
+        from spyne.model.complex import Array
+        from spyne.model.enum import Enum
+        for k in ('Unicode', 'AnyUri', 'Integer', 'UnsignedInteger', 'Integer8', 'Integer16', 'Integer32', 'Integer64',
+                  'UnsignedInteger8', 'UnsignedInteger16', 'UnsignedInteger32', 'UnsignedInteger64', 'Decimal', 'Double',
+                  'Boolean', 'DateTime', 'Date', 'Time', 'Duration', 'Uuid'):
+            _NS[k] = getattr(P, k)
+        _NS.update(datetime=datetime, D=decimal.Decimal, uuid=uuid, Array=Array, Enum=Enum, Wv=Wv, NO=NO, NULL=NULL,
+                   utc=datetime.timezone.utc, nan=float('nan'), inf=float('inf'))
+    return _NS
+
+
+def mk_type(expr):
+    return eval(expr, dict(ns()))
+
+
 class Harness(object):
     """one generated service around the type under test, at every nesting position"""
 
-    def __init__(self, T, multi=None):
+    def __init__(self, T, multi=None, array=None):
         from spyne import Application, rpc, ServiceBase, ComplexModel, Array, Unicode, XmlAttribute
         from spyne.model.complex import ComplexModelMeta
         self.T = T
@@ -97,6 +139,9 @@ class Harness(object):
         WA = ComplexModelMeta('WA', (ComplexModel,), {'__namespace__': TNS, '_type_info': [('v', XmlAttribute(T))]})
         M = T.customize(min_occurs=multi[0], max_occurs=multi[1]) if multi else T.customize(max_occurs=3)
         WM = ComplexModelMeta('WM', (ComplexModel,), {'__namespace__': TNS, '_type_info': [('v', M)]})
+        AT = array if array is not None else Array(T)
+        WL = ComplexModelMeta('WL', (ComplexModel,), {'__namespace__': TNS, '_type_info': [('l', AT)]})
+        self.item_tag = list(AT._type_info.keys())[0]
 
         class S(ServiceBase):
             @rpc(T, _returns=Unicode)
@@ -107,9 +152,13 @@ class Harness(object):
             def nested(ctx, x):
                 calls.append(('nested', None if x is None else x.v)); return 'ok'
 
-            @rpc(Array(T), _returns=Unicode)
+            @rpc(AT, _returns=Unicode)
             def arr(ctx, x):
                 calls.append(('arr', None if x is None else list(x))); return 'ok'
+
+            @rpc(WL, _returns=Unicode)
+            def narr(ctx, x):
+                calls.append(('narr', None if x is None or x.l is None else list(x.l))); return 'ok'
 
             @rpc(WA, _returns=Unicode)
             def att(ctx, x):
@@ -124,7 +173,6 @@ class Harness(object):
                 calls.append(('nmulti', None if x is None or x.v is None else list(x.v))); return 'ok'
         self.S = S
         self.apps = {}
-        self.member_tag = Array(T)._type_info.keys().__iter__().__next__() if False else None
 
     def app(self, proto):
         from spyne import Application
@@ -141,28 +189,33 @@ class Harness(object):
         return self.apps[proto]
 
     # ---- wire forms.  A logical request is (method, payload) with payload:
-    #   top/nested/att: ('val', text_or_number) | ('null',) | ('absent',)
-    #   arr/multi/nmulti: ('items', [text_or_number,...])
+    #   top/nested/att: ('val', value) | ('null',) | ('absent',) | ('dup', [values])
+    #   arr/narr/multi/nmulti: ('items', [values]) | ('absent',) | ('null',)
+    #   a value is a plain int/str/bool (text form str(v), document form v) or a Wv
     def xml_body(self, meth, payload, soap):
         from lxml import etree
         ns = '{%s}' % TNS
         root = etree.Element(ns + meth, nsmap={None: TNS, 'xsi': XSI})
 
+        def elem(parent, tag, v):
+            e = etree.SubElement(parent, ns + tag)
+            if isinstance(v, Wv) and v.nil:
+                e.set('{%s}nil' % XSI, 'true')
+            else:
+                e.text = wire_text(v)
+            return e
+
         def leaf(parent, tag, p):
             if p[0] == 'absent':
                 return
-            e = etree.SubElement(parent, ns + tag)
-            if p[0] == 'null':
-                e.set('{%s}nil' % XSI, 'true')
-            else:
-                e.text = wire_text(p[1])
+            elem(parent, tag, NULL if p[0] == 'null' else p[1])
         if meth == 'top' and payload[0] == 'dup':
             for it in payload[1]:
-                etree.SubElement(root, ns + 'x').text = wire_text(it)
+                elem(root, 'x', it)
         elif meth == 'nested' and payload[0] == 'dup':
             x = etree.SubElement(root, ns + 'x')
             for it in payload[1]:
-                etree.SubElement(x, ns + 'v').text = wire_text(it)
+                elem(x, 'v', it)
         elif meth == 'top':
             leaf(root, 'x', payload)
         elif meth == 'nested':
@@ -172,18 +225,24 @@ class Harness(object):
             x = etree.SubElement(root, ns + 'x')
             if payload[0] == 'val':
                 x.set('v', wire_text(payload[1]))
-        elif meth == 'arr':
-            x = etree.SubElement(root, ns + 'x')
-            tag = self.T.get_type_name()
-            for it in payload[1]:
-                etree.SubElement(x, ns + tag).text = wire_text(it)
+            elif payload[0] == 'null':
+                raise NoForm()       # an attribute cannot be nil
+        elif meth in ('arr', 'narr'):
+            parent = root if meth == 'arr' else etree.SubElement(root, ns + 'x')
+            tag = 'x' if meth == 'arr' else 'l'
+            if payload[0] == 'null':
+                elem(parent, tag, NULL)
+            elif payload[0] == 'items':
+                x = etree.SubElement(parent, ns + tag)
+                for it in payload[1]:
+                    elem(x, self.item_tag, it)
         elif meth == 'multi':
             for it in payload[1]:
-                etree.SubElement(root, ns + 'x').text = wire_text(it)
+                elem(root, 'x', it)
         elif meth == 'nmulti':
             x = etree.SubElement(root, ns + 'x')
             for it in payload[1]:
-                etree.SubElement(x, ns + 'v').text = wire_text(it)
+                elem(x, 'v', it)
         if soap:
             env = etree.Element('{http://schemas.xmlsoap.org/soap/envelope/}Envelope')
             body = etree.SubElement(env, '{http://schemas.xmlsoap.org/soap/envelope/}Body')
@@ -193,89 +252,107 @@ class Harness(object):
 
     def doc_body(self, meth, payload):
         def leaf(p):
-            return None if p[0] == 'null' else p[1]
+            return None if p[0] == 'null' else doc_value(p[1])
         if payload[0] == 'dup':
-            return None        # a map cannot hold a key twice: not expressible in a dict document
+            raise NoForm()        # a map cannot hold a key twice: not expressible in a dict document
         if meth == 'top':
             inner = {} if payload[0] == 'absent' else {'x': leaf(payload)}
-        elif meth == 'nested':
+        elif meth in ('nested', 'att'):
             inner = {'x': ({} if payload[0] == 'absent' else {'v': leaf(payload)})}
         elif meth in ('arr', 'multi'):
-            inner = {'x': list(payload[1])}
-        elif meth == 'nmulti':
-            inner = {'x': {'v': list(payload[1])}}
+            inner = {} if payload[0] == 'absent' else {'x': None if payload[0] == 'null' else [doc_value(i) for i in payload[1]]}
+        elif meth in ('narr', 'nmulti'):
+            k = 'l' if meth == 'narr' else 'v'
+            inner = {'x': ({} if payload[0] == 'absent' else
+                           {k: None if payload[0] == 'null' else [doc_value(i) for i in payload[1]]})}
         else:
-            return None
+            raise NoForm()
         return {meth: inner}
 
     def http_qs(self, meth, payload):
-        if payload[0] == 'dup' and meth in ('top', 'nested'):
-            return '&'.join(('x=' if meth == 'top' else 'x.v=') + quote(wire_text(i)) for i in payload[1])
-        if meth == 'top':
-            return '' if payload[0] == 'absent' else ('x=' + quote(wire_text(payload[1])) if payload[0] == 'val' else None)
-        if meth == 'nested':
-            return '' if payload[0] == 'absent' else ('x.v=' + quote(wire_text(payload[1])) if payload[0] == 'val' else None)
-        if meth in ('arr', 'multi'):
-            return '&'.join('x=' + quote(wire_text(i)) for i in payload[1])
-        if meth == 'nmulti':
-            return '&'.join('x.v=' + quote(wire_text(i)) for i in payload[1])
-        return None
+        if payload[0] == 'null':
+            raise NoForm()        # the flat notation has no null
+        key = {'top': 'x', 'nested': 'x.v', 'att': 'x.v', 'arr': 'x', 'multi': 'x', 'narr': 'x.l', 'nmulti': 'x.v'}[meth]
+        if payload[0] == 'absent':
+            if meth in ('nested', 'att', 'narr', 'nmulti'):
+                raise NoForm()    # no pairs at all: the enclosing object itself is absent in the flat form
+            return ''
+        vals = [payload[1]] if payload[0] == 'val' else payload[1]
+        if payload[0] == 'items' and not vals:
+            if meth in ('arr', 'narr', 'nmulti'):
+                raise NoForm()    # present-but-empty has no flat form; for nmulti the enclosing object would be absent
+            return ''
+        return '&'.join(key + '=' + quote(wire_text(i)) for i in vals)
 
     def run(self, proto, meth, payload):
-        """-> ('called', value) | ('fault', code) | ('crash', exc type) | None when the position has no wire form"""
-        from spyne.server import ServerBase
-        from spyne.server.wsgi import WsgiApplication
-        from spyne.context import MethodContext
-        del self.calls[:]
+        """-> ('called', value) | ('fault', code) | ('crash', exc type) | None when the request has no wire form"""
         try:
             if proto == 'http':
-                qs = self.http_qs(meth, payload)
-                if qs is None:
-                    return None
-                w = WsgiApplication(self.app(proto))
-                st = []
-                env = {'REQUEST_METHOD': 'GET', 'PATH_INFO': '/' + meth, 'QUERY_STRING': qs, 'SERVER_NAME': 'x',
-                       'SERVER_PORT': '80', 'wsgi.url_scheme': 'http', 'wsgi.input': BytesIO(b''), 'SCRIPT_NAME': ''}
-                out = b''.join(w(env, lambda s, h, e=None: st.append(s)))
-                if self.calls:
-                    return ('called', self.calls[0][1])
-                try:
-                    return ('fault', json.loads(out.decode('utf8')).get('faultcode'))
-                except Exception:
-                    return ('fault', 'status ' + st[0] if st else '?')
+                return drive(self.app(proto), self.calls, proto, qs=self.http_qs(meth, payload), meth=meth)
             if proto in ('xml', 'soap11'):
                 body = self.xml_body(meth, payload, proto == 'soap11')
             else:
-                d = self.doc_body(meth, payload)
-                if d is None:
-                    return None
-                if proto == 'json':
-                    body = json.dumps(d).encode()
-                elif proto == 'yaml':
-                    import yaml
-                    body = yaml.safe_dump(d).encode()
-                else:
-                    import msgpack
-                    (k, v), = d.items()
-                    # documented convention: integers msgpack cannot carry (outside -2^63 .. 2^64-1) travel as text
-                    body = msgpack.packb({k.encode(): mp_big(v)})
-            srv = ServerBase(self.app(proto))
-            ctx = MethodContext(srv, MethodContext.SERVER)
-            ctx.in_string = [body]
-            ctx, = srv.generate_contexts(ctx)
-            if ctx.in_error:
-                return ('fault', ctx.in_error.faultcode)
-            srv.get_in_object(ctx)
-            if ctx.in_error:
-                return ('fault', ctx.in_error.faultcode)
-            srv.get_out_object(ctx)
-            if ctx.out_error:
-                return ('fault', ctx.out_error.faultcode)
-            if self.calls:
-                return ('called', self.calls[0][1])
-            return ('fault', 'not called')
-        except Exception as e:
-            return ('crash', type(e).__name__)
+                body = encode_doc(proto, self.doc_body(meth, payload))
+        except NoForm:
+            return None
+        return drive(self.app(proto), self.calls, proto, body=body)
+
+
+def encode_doc(proto, d):
+    try:
+        if proto == 'json':
+            return json.dumps(d).encode()
+        if proto == 'yaml':
+            import yaml
+            return yaml.safe_dump(d).encode()
+        import msgpack
+        (k, v), = d.items()
+        # documented convention: integers msgpack cannot carry (outside -2^63 .. 2^64-1) travel as text
+        return msgpack.packb({k.encode(): mp_big(v)})
+    except (TypeError, ValueError, OverflowError):
+        raise NoForm()            # this document format cannot carry the value (e.g. bytes in JSON)
+    except Exception as e:
+        if type(e).__module__.startswith('yaml'):
+            raise NoForm()
+        raise
+
+
+def drive(app, calls, proto, body=None, qs=None, meth=None):
+    """one request through the real pipeline -> ('called', value) | ('fault', code) | ('crash', exc type)"""
+    from spyne.server import ServerBase
+    from spyne.server.wsgi import WsgiApplication
+    from spyne.context import MethodContext
+    del calls[:]
+    try:
+        if proto == 'http':
+            w = WsgiApplication(app)
+            st = []
+            env = {'REQUEST_METHOD': 'GET', 'PATH_INFO': '/' + meth, 'QUERY_STRING': qs, 'SERVER_NAME': 'x',
+                   'SERVER_PORT': '80', 'wsgi.url_scheme': 'http', 'wsgi.input': BytesIO(b''), 'SCRIPT_NAME': ''}
+            out = b''.join(w(env, lambda s, h, e=None: st.append(s)))
+            if calls:
+                return ('called', calls[0][1])
+            try:
+                return ('fault', json.loads(out.decode('utf8')).get('faultcode'))
+            except Exception:
+                return ('fault', 'status ' + st[0] if st else '?')
+        srv = ServerBase(app)
+        ctx = MethodContext(srv, MethodContext.SERVER)
+        ctx.in_string = [body]
+        ctx, = srv.generate_contexts(ctx)
+        if ctx.in_error:
+            return ('fault', ctx.in_error.faultcode)
+        srv.get_in_object(ctx)
+        if ctx.in_error:
+            return ('fault', ctx.in_error.faultcode)
+        srv.get_out_object(ctx)
+        if ctx.out_error:
+            return ('fault', ctx.out_error.faultcode)
+        if calls:
+            return ('called', calls[0][1])
+        return ('fault', 'not called')
+    except Exception as e:
+        return ('crash', type(e).__name__)
 
 
 def mp_big(v):
@@ -289,9 +366,21 @@ def mp_big(v):
 
 
 def wire_text(v):
+    if isinstance(v, Wv):
+        if v.text is None:
+            raise NoForm()
+        return v.text
     if isinstance(v, bool):
         return 'true' if v else 'false'
     return str(v)
+
+
+def doc_value(v):
+    if isinstance(v, Wv):
+        if v.doc is NO:
+            raise NoForm()
+        return v.doc
+    return v
 
 
 def int_type_cases(check, tier):
